@@ -74,6 +74,10 @@ class P(Protocol):
 T = TypeVar("T")
 TB = TypeVar("TB", bound=int)
 TC = TypeVar("TC", int, str)
+from typing_extensions import NotRequired
+class TDN(TypedDict):                   # **kwargs: Unpack[TDN]  (spec/DefVarargs.tla)
+    p: int
+    q: NotRequired[str]
 D = 1                                   # defaults that are not literals: a module constant, a call, (a lambda)
 def mk() -> int:
     return 1
@@ -345,6 +349,16 @@ def judge_annotations(check: core.Check, cases: list[dict], label: str) -> dict[
 _GOOD_ARG = {"noann": "1", "int": "1", "str": '"s"', "A": "A()", "Optional[int]": "None", "list[int]": "[1]", "T": "1", "None": "None",
              "TimeoutError": "TimeoutError(1.5)"}
 _BAD_ARG = 'b"x"'
+# *args / **kwargs annotated with what the extra arguments are (spec/DefVarargs.tla): a fitting value per position / key
+_FIXED_TUPLE = ("Unpack[tuple[int, str]]", "*tuple[int, str]")
+_TD_KEY_ARG = {"p": "1", "q": '"s"'}
+
+
+def _vararg_value(p: dict, k: int) -> str:
+    key = _ann_key(p["ann"])
+    if key in _FIXED_TUPLE:
+        return ("1", '"s"')[k] if k < 2 else "1"
+    return _GOOD_ARG.get(key, "1")
 
 
 def _ann_src(ann: dict) -> Optional[str]:
@@ -392,11 +406,13 @@ def render_call(h: dict, call: dict) -> str:
     by_name = {p["name"]: p for p in params}
     args: list[str] = []
     for j in range(call["npos"]):
-        p = positional[j] if j < len(positional) else vararg
-        args.append(_GOOD_ARG[_ann_key(p["ann"])] if p is not None else "1")
+        if j < len(positional):
+            args.append(_GOOD_ARG[_ann_key(positional[j]["ann"])])
+        else:
+            args.append(_vararg_value(vararg, j - len(positional)) if vararg is not None else "1")
     for name in sorted(call["kws"]):
         p = by_name.get(name)
-        args.append(f"{name}=" + (_GOOD_ARG[_ann_key(p["ann"])] if p is not None else "1"))
+        args.append(f"{name}=" + (_GOOD_ARG[_ann_key(p["ann"])] if p is not None else _TD_KEY_ARG.get(name, "1")))
     if call["bad"] and args:
         first = args[0]
         args[0] = (first.split("=")[0] + "=" + _BAD_ARG) if "=" in first and not first.startswith(('"', "[")) else _BAD_ARG
@@ -541,12 +557,13 @@ def _strip_header_obs(o: dict) -> dict:
     return o
 
 
-def judge_headers(check: core.Check, cases: list[dict], label: str, cfg: str = "DefHeadersTrace.cfg") -> dict[str, int]:
+def judge_headers(check: core.Check, cases: list[dict], label: str, cfg: str = "DefHeadersTrace.cfg",
+                  module: str = "DefHeadersTrace") -> dict[str, int]:
     t0 = time.time()
     parts = core.pmap(observe_headers, _batches(cases, 10), chunk=1)
     obs = _flatten(parts)
     t1 = time.time()
-    verdicts, stats = _adjudicate("DefHeadersTrace", cfg, [_strip_header_obs(o) for o in obs],
+    verdicts, stats = _adjudicate(module, cfg, [_strip_header_obs(o) for o in obs],
                                       batch=100, parallel=8, timeout=3000)
     check.cov.setdefault("timing", []).append({"what": "headers:" + label, "observe_s": round(t1 - t0, 1), "adjudicate_s": round(time.time() - t1, 1)})
     check.add_trace_stats(stats)
@@ -774,6 +791,27 @@ def run_shapes(check: core.Check, quick: bool, rnd: random.Random) -> None:
     check.cov["shapes_replay_is_exhaustive"] = exhaustive and nexh
 
 
+def run_varargs(check: core.Check, quick: bool, rnd: random.Random) -> None:
+    """spec/DefVarargs.tla: *args / **kwargs annotated with Unpack[tuple[...]] / *tuple[...] / Unpack[TypedDict], as an
+    expression, quoted, and in a PEP 563 module; both signature views against the declared meaning, calls in 3 contexts."""
+    cfg = "DefVarargs.quick.cfg" if quick else "DefVarargs.thorough.cfg"
+    res = core.require_ok(_tlc("DefVarargsEmit", cfg, timeout=3000), "DefVarargs exhaustive")
+    check.add_tlc("exhaustive+emit:" + cfg, res)
+    cases = core.emitted_json(res)
+    if not cases:
+        raise core.MachineryError("TLC emitted no *args / **kwargs headers")
+    check.cov["model_cases_varargs"] = len(cases)
+    # every header of one parameter (each spelling x PEP 563 or not) is always replayed; a seeded sample of the rest
+    single = [c for c in cases if len(c["h"]["params"]) == 1]
+    rest = [c for c in cases if len(c["h"]["params"]) > 1]
+    extra = 40 if quick else 500
+    exhaustive = len(rest) <= extra
+    chosen = single + (rest if exhaustive else rnd.sample(rest, extra))
+    counts = judge_headers(check, chosen, "tlc-exhaustive-varargs", "DefVarargsTrace.cfg", module="DefVarargsTrace")
+    check.cov.setdefault("replay", {})["headers_varargs"] = {**counts, "replay_is_exhaustive": exhaustive}
+    check.cov["varargs_replay_is_exhaustive"] = exhaustive
+
+
 _sens_pool = None
 _sens_jobs: list = []
 
@@ -834,6 +872,10 @@ def run(check: core.Check) -> None:
         "the object behind a functools.wraps wrapper is judged by its own signature (inspect.signature(follow_wrapped=False), "
         "as arg_spec.py does deliberately); the def-derived view of a method is what the visitor knows of the parameters "
         "inside the body",
+        "vararg slice: the declared meaning of *args: Unpack[tuple[A, B]] / *tuple[A, B] (exactly two more positionals), "
+        "Unpack[tuple[A, ...]] and **kwargs: Unpack[TD] (keyword parameters per key, NotRequired = optional) is RefSlots of "
+        "DefVarargs.tla (PEP 646 / 692); quoting does not change the meaning; CPython does not enforce it, so it is not "
+        "executed -- both signature views must show it and the three call contexts must agree",
     ]
     # ---------------- part A: annotations
     if quick:
@@ -928,6 +970,10 @@ def run(check: core.Check) -> None:
     _sensitivity("DefShapes", "DefShapes.oldasyncgen.cfg", "CallAwaitableAgrees")     # the behaviour before repo b243661
     _sensitivity("DefHeaders", "DefHeaders.defaultsequal.cfg", "HeaderDefaultsEqual")
     run_shapes(check, quick, rnd)
+    # ---------------- part E: *args / **kwargs that say what the extra arguments are
+    _sensitivity("DefVarargs", "DefVarargs.strict.cfg", "VarargViewsAgreeStrict")
+    _sensitivity("DefVarargs", "DefVarargs.bugstring.cfg", "VarargViewsAgree")
+    run_varargs(check, quick, rnd)
     check.cov["sensitivity_runs"] = _sensitivity_join()
     check.cov["exhaustive"] = exhaustive_a and exhaustive_h and bool(check.cov.get("context_replay_is_exhaustive"))
     check.cov.setdefault("replay", {}).update({
@@ -943,7 +989,7 @@ def run(check: core.Check) -> None:
         "taken from any module that defines it) CtxDeclaringModule, and NeverForeignCell is violated (some history does leave "
         "the other module's class on a shared ForwardRef); shape slice: ShapeViewsAgreeStrict (the declared-Callable "
         "deviation is real), BugBoundKeepsFirst, BugAsyncGenWrapped violate ShapeViewsAgree, FixedAsyncGenInferred = FALSE (the code before repo b243661) violates CallAwaitableAgrees, HeaderDefaultsEqual is violated "
-        "by call / lambda defaults; corrupted real observations of every new clause are flagged (--selftest-binding)"
+        "by call / lambda defaults; vararg slice: VarargViewsAgreeStrict (the two deviation classes are real), BugStringDropsAllowUnpack (a string annotation evaluated without allow_unpack) violates VarargViewsAgree; corrupted real observations of every new clause are flagged (--selftest-binding)"
     )
     check.cov["rule"] = (
         "annotation cases = expression trees TLC builds bottom-up from the leaf/unary/binary forms of Annotations.tla up to "
@@ -975,6 +1021,11 @@ def replay(check: core.Check, witness: dict) -> None:
         judge_context(check, [{"w": witness["w"], "hist": witness["hist"]}], "replay")
     elif witness.get("kind") == "shape":
         judge_shapes(check, [{"h": witness["h"], "shape": witness["shape"], "calls": witness["calls"]}], "replay")
+    elif witness.get("kind") == "header" and any(
+        p["kind"] in ("VAR_POSITIONAL", "VAR_KEYWORD") and render(p["ann"]).strip("\"'").startswith(("Unpack[", "*"))
+        for p in witness["h"]["params"] if p["ann"]["k"] != "noann"
+    ) or witness.get("source") == "tlc-exhaustive-varargs":
+        judge_headers(check, [{"h": witness["h"], "calls": witness["calls"]}], "replay", "DefVarargsTrace.cfg", module="DefVarargsTrace")
     elif witness.get("kind") == "header":
         big = any(c["npos"] > 2 or len(c["kws"]) > 1 for c in witness["calls"])
         judge_headers(check, [{"h": witness["h"], "calls": witness["calls"]}], "replay",
@@ -1045,6 +1096,21 @@ def selftest_binding(check: core.Check) -> None:
     print("shape: async generator awaited ->", ggood, v11)
     if ggood or not ({"viol:AwaitableIffCoroutine#1", "viol:CallJudgedIdentically#1"} <= set(v11.get(0, []))):
         raise core.MachineryError("binding self-test failed: the repaired async-generator defect is not flagged as a violation")
+    # **kwargs: "Unpack[TDN]": the runtime view degrades to dict[str, Any] (a string evaluated without allow_unpack)
+    vh = {"params": [{"name": "kw", "kind": "VAR_KEYWORD", "ann": parse('"Unpack[TDN]"'), "dflt": "none"}],
+          "ret": {"k": "noann", "id": "", "args": []}, "isasync": False, "future": False}
+    vcalls = [{"npos": n, "kws": list(k), "bad": b} for n in (0, 1, 2, 3) for b in (False, True)
+              for k in ([], ["p"], ["q"], ["zz"], ["p", "q"], ["p", "zz"], ["q", "zz"])]
+    (vo,) = observe_headers((0, [{"h": vh, "calls": vcalls}]))
+    vo = _strip_header_obs(vo)
+    vgood, _ = _adjudicate("DefVarargsTrace", "DefVarargsTrace.cfg", [vo])
+    vbad = json.loads(json.dumps(vo))
+    vbad["sigrt"]["a"] = [V("Param", "kw", [V("kind", "VAR_KEYWORD"), V("nodefault"), V("Generic", "dict", [V("Typed", "str"), V("Any", "error")])]),
+                          vbad["sigrt"]["a"][-1]]
+    v12, _ = _adjudicate("DefVarargsTrace", "DefVarargsTrace.cfg", [vbad])
+    print("vararg: runtime view degraded  ->", vgood, v12)
+    if vgood or "viol:VarargViewsAgree" not in v12.get(0, []):
+        raise core.MachineryError("binding self-test failed: a degraded **kwargs view was not flagged")
     print("uncorrupted:", good, hgood, cgood, sgood)
     print("context: B's sig route -> A.K  ->", v5)
     print("context: cell state corrupted  ->", v6)
